@@ -106,7 +106,40 @@ def oracle_moments(rng, d):
     return None
 
 
+def oracle_declared_domains(rng):
+    """for domains built from user constraints that leave a coordinate unmentioned: the dual SAGE constraint over X, compiled, admits the moment
+    vector of every point of the DECLARED set (v fixed to exp(alpha x), feasibility decided by the solver), under both dual encodings"""
+    import sageopt.coniclifts as cl
+    import sageopt.coniclifts.constraints.set_membership.sage_cones as sc
+    alpha = np.array([[0.0, 0.0, 0.0], [1.0, 0.0, 0.0], [0.0, 1.0, 1.0], [0.0, -1.0, -1.0], [1.0, 1.0, 0.0], [0.0, 0.0, 2.0]])
+    saved = dict(sc.SETTINGS)
+    try:
+        with warnings.catch_warnings():
+            warnings.simplefilter('ignore')
+            for desc, build, pts in sagecorr.declared_domains(rng):
+                for comp in (True, False):
+                    sc.SETTINGS.update(saved)
+                    cl.compact_sage_duals(comp)
+                    X = build()
+                    for x in rng.sample(pts, 4):
+                        v = cl.Variable(shape=(alpha.shape[0],), name='decl_v')
+                        con = cl.DualSageCone(v, alpha, X, 'decl_dual')
+                        st, val = cl.Problem(cl.MIN, cl.Expression([0]), [con, v == np.exp(alpha @ x)]).solve(verbose=False)
+                        if not (st == 'solved' and val < 1e-6):
+                            return ('X = %s: the dual SAGE constraint over X (compact_dual=%s) rejects the moment vector exp(alpha x) of the point x = %s of X: '
+                                    'feasibility problem reports (%s, %r)' % (desc, comp, x.tolist(), st, val))
+    finally:
+        sc.SETTINGS.clear()
+        sc.SETTINGS.update(saved)
+    return None
+
+
 def run(ctx):
+    why = oracle_declared_domains(ctx.rng)
+    ctx.evaluations += 24
+    ctx.suites['declared_domains'] = {'cases': 24, 'failure': why}
+    if why:
+        ctx.problem('oracle', 'property fails on the implementation: ' + why, inputs={'suite': 'declared_domains'}, failing_input_found=True)
     cases = []
     for k in range(ctx.n(220, 2500)):
         sagecorr.FORCE_TINY[0] = (k % 40 == 7)      # a few instances with every exponent of size 2^-45 (far below any absolute threshold)
